@@ -17,6 +17,7 @@ pub struct MemOperand {
 
 #[derive(Debug, Copy, Clone, PartialEq, Eq)]
 pub enum SupportedSegmentRegister {
+    CS,
     DS,
     ES,
     SS,
@@ -29,6 +30,7 @@ impl TryFrom<iced_x86::Register> for SupportedSegmentRegister {
 
     fn try_from(value: iced_x86::Register) -> Result<Self, Self::Error> {
         match value {
+            iced_x86::Register::CS => Ok(SupportedSegmentRegister::CS),
             iced_x86::Register::DS => Ok(SupportedSegmentRegister::DS),
             iced_x86::Register::ES => Ok(SupportedSegmentRegister::ES),
             iced_x86::Register::SS => Ok(SupportedSegmentRegister::SS),
@@ -127,15 +129,27 @@ impl Axecutor {
             segment,
         } = o;
         let mut addr: u64 = 0;
+        // With the address-size override prefix (67h) base and index are 32-bit registers and the
+        // effective address is truncated to 32 bits
+        let mut addr32 = false;
         if let Some(base) = base {
-            addr = addr.wrapping_add(
+            let value = if iced_x86::Register::from(base).is_gpr32() {
+                addr32 = true;
+                self.reg_read_32(base)
+            } else {
                 self.reg_read_64(base)
-                    .expect("reading memory operand base register"),
-            );
+            };
+            addr = addr.wrapping_add(value.expect("reading memory operand base register"));
         }
         if let Some(index) = index {
-            addr = addr.wrapping_add(
+            let value = if iced_x86::Register::from(index).is_gpr32() {
+                addr32 = true;
+                self.reg_read_32(index)
+            } else {
                 self.reg_read_64(index)
+            };
+            addr = addr.wrapping_add(
+                value
                     .expect("reading memory operand index register")
                     .wrapping_mul(scale as u64),
             );
@@ -143,6 +157,10 @@ impl Axecutor {
 
         // This overflow is explicitly allowed, as x86-64 encodes negative values as signed integers
         addr = addr.wrapping_add(displacement);
+
+        if addr32 {
+            addr &= 0xffff_ffff;
+        }
 
         if let Some(reg) = segment {
             match reg {
@@ -201,6 +219,8 @@ impl Axecutor {
                     iced_x86::Register::None => None,
                     // If base is RIP, we can use the displacement as-it. No need to add it to the memory address
                     iced_x86::Register::RIP => None,
+                    // Same for EIP (address-size override): the decoder already resolved and truncated the address
+                    iced_x86::Register::EIP => None,
                     r => Some(SupportedRegister::from(r)),
                 };
                 let index = match i.memory_index() {
